@@ -236,13 +236,14 @@ def to_coq(case, res, with_input=True):
     return "(%s, %s, %s)" % (vlib.coq_list(obs), eqm, vlib.coq_list(ops))
 
 
-CHECK_NAMES = {1: "rep_okb of the dumped representation", 2: "canon(rep) = canon(build(input))", 3: "Equal matrix",
-               4: "Hash", 5: "String()", 6: "gob round trip (canon, rep_ok, hash)", 7: "HashMap op sequence"}
+CHECK_NAMES = {1: "rep_okb / cokb of the dumped representation", 2: "canon(rep) = canon(build(input))", 3: "Equal matrix",
+               4: "Hash", 5: "String()", 6: "gob round trip (canon, rep_ok, hash)", 7: "HashMap op sequence",
+               8: "the Gallina parser on the printed form"}
 
 
 def run(ctx):
     rng = ctx.rng
-    n = 400 if ctx.tier == "quick" else 5000
+    n = 300 if ctx.tier == "quick" else 4000
     if ctx.replay:
         rp = json.load(open(ctx.replay))
         cases = [rp["case"]] if rp.get("case") else corpus()
@@ -293,7 +294,7 @@ def run(ctx):
     # tie B: the model evaluated inside Coq on the dumped representations (4 shards at a time)
     if ctx.coq_ok:
         from concurrent.futures import ThreadPoolExecutor
-        shard = 60
+        shard = 50
         parts = [good[s:s + shard] for s in range(0, len(good), shard)]
 
         def ev(k):
@@ -304,7 +305,7 @@ def run(ctx):
             rc, out, err = vlib.coq_eval("C05_cases_%d" % k, body)
             return k, rc, out, err
 
-        with ThreadPoolExecutor(max_workers=4) as ex:
+        with ThreadPoolExecutor(max_workers=6) as ex:
             results = list(ex.map(ev, range(len(parts))))
         for k, rc, out, err in results:
             part = parts[k]
@@ -324,7 +325,13 @@ def run(ctx):
 
 MANIFEST = {
     "category": "proof",
-    "technique": "Coq proof (Equal <-> canonical-form equality by nested induction; hash congruence; hashmap refinement) + differential correspondence model vs value.go/hashmap.go on dumped representations",
-    "text": "see notes/C05.md",
-    "level_note": "see notes/C05.md",
+    "technique": "Coq proof (Equal <-> canonical-form equality by nested induction; hash congruence; hashmap refinement; gob round trip under an explicit codec hypothesis; token-level print/parse) + differential correspondence of the model with value.go/vclock.go/hashmap.go on representations dumped in the runtime's iteration order",
+    "text": ("Theorems in coq/Properties/C05.v, all closed under the global context: Equal_spec (for every two representations the builders can produce, of any depth and "
+             "iteration order, a.Equal(b) iff both denote the same canonical value), Equal_equivalence, rep_ok_decided, Hash_Equal (fnv1a modelled bit-exactly), hashmap_refines "
+             "(every Set/Clear sequence behaves as an association map keyed by the denoted value, Keys lists each key once), EqualC_transparent/HashC_transparent (causal wrappers at "
+             "any depth), MakeSet_establishes_rep_ok, gob_roundtrip (decode(encode c) = c incl. vector clocks, under the hypothesis that gob reads back what it wrote), "
+             "print_is_rendered_tokens + parse_print_tokens (token-level printer/parser round trip for all values); print_parse_partial is conditional on the lexer."),
+    "level_note": ("Partial: the byte-level print/parse statement is proved only up to the lexer (covered by evaluating the full Gallina parser and an independent Python parser on "
+                   "every case). immutable.Map is abstracted (Get = first Equal key); encoding/gob is a hypothesis; the tie between model and Go is differential testing "
+                   "(300 quick / 4000 thorough cases, 13 seeded mutations all caught, see notes/C05.md)."),
 }
